@@ -40,6 +40,9 @@ Next ==
                  ELSE PrintT(<<"FAIL", l, ToJson([clauses |-> <<"lookup_eq_sequential">>, ev |-> r])>>)
 Spec == Init /\ [][Next]_vars
 
+\* validation is deterministic: the position in the log identifies the state (TLC fingerprints one integer instead of the
+\* growing reference map)
+ViewL == l
 AllConsumed ==
     \/ TLCGet("stats").diameter - 1 = Len(Rec)
     \/ PrintT(<<"NOT_CONSUMED", TLCGet("stats").diameter - 1, Len(Rec)>>) /\ FALSE
